@@ -26,9 +26,9 @@
 (* Environment assumptions (each is a property of another component):           *)
 (*   - the default state sampler of the space returns states inside the bounds  *)
 (*     (C08), so base draws have inb = TRUE;                                    *)
-(*   - a point drawn from PHS i lies in PHS i (k >= 1) and a point that lies in *)
-(*     some PHS of diameter maxCost has cost < maxCost (geometry, judged on     *)
-(*     recorded samples by InformedContract);                                   *)
+(*   - a point that lies in some PHS of diameter maxCost has cost < maxCost     *)
+(*     (isInPhs and heuristicSolnCost evaluate the same getPathLength; judged   *)
+(*     on recorded samples by InformedContract);                                *)
 (*   - rand is in [0, 1): with k = 1 the coin always keeps.                     *)
 (* TLC enumerates every answer sequence up to numIters_; each complete run is   *)
 (* exported with the expected return flag and the index of the returned draw.   *)
@@ -160,18 +160,23 @@ PTest ==
     /\ pc' = IF ~found /\ it < N THEN "p_draw" ELSE "h_ret"
     /\ UNCHANGED <<cfgv, alive, degen, ui, it, draws, script, cur, found, ret, ordv>>
 (* { phs = randomPhsPtr(); rng_.uniformProlateHyperspheroid(phs, v);                      *)
-(*   foundSample = keepSample(v);   [size > 1: rand <= 1/numberOfPhsInclusions(v)]        *)
+(*   foundSample = keepSample(v);   [numIn = numberOfPhsInclusions(v); keep = numIn > 0;  *)
+(*                                   size > 1: keep = keep && rand <= 1/numIn]             *)
 (*   if (foundSample) { createFullState(statePtr, v); foundSample = satisfiesBounds; }    *)
-(*   ++iters; }                                                                        *)
+(*   ++iters; }                                                                           *)
+(* k = 0: rounding of the transform put the drawn point on or outside every surface (the   *)
+(* only possibility for the degenerate set, a line segment with nothing strictly inside)   *)
 PDraw(o) ==
     /\ pc = "p_draw"
-    /\ Step(IF ~o.keep THEN "PDrawCoinRejects" ELSE IF o.inb THEN "PDrawKept" ELSE "PDrawOutOfBounds")
-    /\ IF degen THEN o.k = 0 /\ o.cls = "atmax"              \* a line segment: nothing is strictly inside
-       ELSE o.k \in 1..Len(alive) /\ o.cls # "atmax"        \* drawn from one of them
-    /\ (Len(alive) = 1 \/ o.k = 1) => o.keep                 \* size 1: no coin; k = 1: rand <= 1.0
-    /\ ~o.keep => ~o.inb /\ o.cls = (IF degen THEN "atmax" ELSE "inside")   \* not looked at: one canonical value
+    /\ Step(IF o.k = 0 THEN "PDrawInNoPhs" ELSE IF ~o.keep THEN "PDrawCoinRejects"
+            ELSE IF o.inb THEN "PDrawKept" ELSE "PDrawOutOfBounds")
+    /\ o.k \in 0..Len(alive) /\ (degen => o.k = 0)
+    /\ o.k = 0 => ~o.keep                                       \* keep = numIn > 0
+    /\ (o.k = 1 \/ (Len(alive) = 1 /\ o.k > 0)) => o.keep       \* size 1: no coin; k = 1: rand <= 1.0
+    /\ o.keep => o.cls # "atmax"                                \* in some PHS of diameter maxCost
+    /\ ~o.keep => ~o.inb /\ o.cls = (IF o.k = 0 THEN "atmax" ELSE "inside")   \* not looked at: canonical
     /\ Ask(o)
-    /\ cur' = IF o.keep THEN Q ELSE cur                      \* createFullState only for kept draws
+    /\ cur' = IF o.keep THEN Q ELSE cur                          \* createFullState only for kept draws
     /\ found' = (o.keep /\ o.inb) /\ it' = it + 1 /\ draws' = draws + 1 /\ pc' = "p_test"
     /\ UNCHANGED <<cfgv, alive, degen, ui, ret, ordv>>
 
@@ -269,14 +274,15 @@ Spec == Init /\ [][Next]_vars
 (* ===================================== properties ===================================== *)
 Finished == pc = "done"
 PosDraws == N >= 1
-(* the property's first sentence on the model; for a bound at or below every focal distance *)
-(* (degen, outside the property's quantifier) the direct sampler returns boundary points     *)
+(* the property's first sentence on the model *)
 SuccessSound ==
     Finished /\ ret => /\ cur \in 1..Len(script)
                        /\ script[cur].inb
-                       /\ ~degen => script[cur].cls # "atmax"
+                       /\ script[cur].cls # "atmax"
                        /\ ov = "minmax" => script[cur].cls # "below"
-DegenerateIsNotSound == Finished /\ ret /\ degen => script[cur].cls = "atmax"    \* documented, see above
+(* a bound at or below every focal distance (outside the property's quantifier): the informed  *)
+(* set is empty and no call succeeds                                                          *)
+DegenerateNeverSucceeds == Finished /\ degen => ~ret
 (* attempts never exceed numIters_; the counter may overshoot by the outer ++i only          *)
 Bounded == IsLoop => draws <= N /\ draws = Len(script) /\ it <= N + 1 /\ draws <= it
 (* false only after the counter reached numIters_.  With [min, max] the counter is moved by  *)
@@ -290,9 +296,9 @@ FalseOnlyExhausted ==
 Usable(o) == o.keep /\ o.inb /\ (o.cls = "inside" \/ (o.cls = "below" /\ ov = "max")) /\
              (kind = "direct" /\ finite /\ big => o.k > 0)
 FirstUsableReturned ==
-    Finished /\ ~degen => /\ ret => cur = Len(script) /\ Usable(script[cur])
-                          /\ \A j \in 1..Len(script) - 1 : ~Usable(script[j])
-                          /\ ~ret => \A j \in 1..Len(script) : ~Usable(script[j])
+    Finished => /\ ret => cur = Len(script) /\ Usable(script[cur])
+                /\ \A j \in 1..Len(script) - 1 : ~Usable(script[j])
+                /\ ~ret => \A j \in 1..Len(script) : ~Usable(script[j])
 (* pruning: what is left are exactly the PHSs that can still improve, in order; if none can, *)
 (* the last one is kept as a degenerate (measure 0) set                                      *)
 Improvable == SelectSeq([i \in 1..K0 |-> i], LAMBDA i : can[i])
